@@ -28,13 +28,28 @@ PUNCT = ".,;:!?()[]-+*/=<>@|'` "
 TEXSPECIAL = "#%&_{}~\\"
 ALPHABET = LETTERS + "0123456789" + ACCENTED + PUNCT + TEXSPECIAL
 URLCH = "abcxyz0189:/._-#?="
+URLACTIVE = "%~&"          # ordinary URL characters (percent-encoding, home directories, query strings) that are TeX-active
 MATHCH = "abxyz012^_+-= "
+
+
+def _urlchars(r):
+    pool = URLCH + URLACTIVE if r.random() < 0.25 else URLCH
+    return "".join(r.choice(pool) for _ in range(r.randint(1, 6)))
+
+
+def feature(text):
+    urls = re.findall(r"(?:https?://|www\.)\S*", text)
+    if any(c in u for u in urls for c in URLACTIVE):
+        return "url-with-tex-active-character"
+    if "$" in text:
+        return "math"
+    return "url" if urls else "text"
 
 
 def rand_text(r):
     if r.random() < 0.08:
         # a value that is nothing but one URL, with characters the encoder rewrites
-        return r.choice(["http://", "https://", "www."]) + "".join(r.choice(URLCH) for _ in range(r.randint(1, 6))) + r.choice([".org/a_b", ".com/x#y_z", ".io"])
+        return r.choice(["http://", "https://", "www."]) + _urlchars(r) + r.choice([".org/a_b", ".com/x#y_z", ".io", ".org/a%20b", ".edu/~user", ".com/q?a=1&b=2"])
     parts = []
     for _ in range(r.randint(1, 4)):
         k = r.random()
@@ -43,7 +58,7 @@ def rand_text(r):
         elif k < .85:
             parts.append("$" + "".join(r.choice(MATHCH) for _ in range(r.randint(1, 6))).strip() + "x$")
         else:
-            parts.append(r.choice(["http://", "https://", "www."]) + "".join(r.choice(URLCH) for _ in range(r.randint(1, 6))) + "." + r.choice(["org", "com/a_b", "io/x#y"]))
+            parts.append(r.choice(["http://", "https://", "www."]) + _urlchars(r) + "." + r.choice(["org", "com/a_b", "io/x#y"]))
     return " ".join(parts)
 
 
@@ -81,7 +96,7 @@ def cases(tier, seed, shard, nshards):
                    "opts": r.randrange(7), "inplace": r.random() < .5}
         else:
             yield {"k": "fp", "texts": [rand_text(r) for _ in range(3)], "which": r.choice(["enc", "dec"]), "mode": r.choice(["always", "marker"]),
-                   "inplace": r.random() < .5, "order": r.sample(range(6), 6), "where": r.choice(["title", "note", "np.first", "np.last", "nponly.first", "nponly.von", "nponly.last", "nponly.jr"])}
+                   "inplace": r.random() < .5, "order": r.sample(range(6), 6), "exc": r.choice(["msg", "msg", "empty", "assert", "keyerror"]), "where": r.choice(["title", "note", "np.first", "np.last", "nponly.first", "nponly.von", "nponly.last", "nponly.jr"])}
 
 
 _DIRECT = None
@@ -105,7 +120,7 @@ def direct_roundtrip(t, mask_math=True, mask_url=True):
 
 
 _MATH = re.compile(r"\$[abxyz012^_+\-= ]*x\$")
-_URL = re.compile(r"(https?://|www\.)[abcxyz0189:/._\-#?=]+")
+_URL = re.compile(r"(https?://|www\.)[abcxyz0189:/._\-#?=%~&]+")
 LIGATURES = ("--", "``", "''", "!`", "?`")
 
 
@@ -199,17 +214,19 @@ def check_rt(case, ctx):
     ctx.mon("roundtrip_field", 2)
     for key, want in (("title", t[0]), ("note", t[1])):
         if e[key] != want:
-            feat = "math" if "$" in want else "url" if ("http" in want or "www." in want) else "text"
+            feat = feature(want)
             out.append(Violation("roundtrip", f"C18:roundtrip:field:{feat}", dict(text=want, got=srepr(e[key]), opts=case["opts"])))
             return out
     ctx.mon("roundtrip_nameparts")
     np = e["author"]
     if [np.first, np.von, np.last, np.jr] != [[t[2]], [], [t[0], t[1]], []]:
-        out.append(Violation("roundtrip", "C18:roundtrip:nameparts", dict(texts=good, got=srepr(np))))
+        worst = next((f for f in ("url-with-tex-active-character",) if any(feature(x) == f for x in good)), "")
+        out.append(Violation("roundtrip", "C18:roundtrip:nameparts" + (":" + worst if worst else ""), dict(texts=good, got=srepr(np))))
     ctx.mon("roundtrip_string_block")
     s = l2.blocks[0]
     if not isinstance(s.value, str) or s.value != t[2]:
-        out.append(Violation("roundtrip", f"C18:roundtrip:string-block:{type(s.value).__name__}", dict(text=t[2], got=srepr(s.value))))
+        out.append(Violation("roundtrip", f"C18:roundtrip:string-block:{type(s.value).__name__}" + (":url-with-tex-active-character" if feature(t[2]) == "url-with-tex-active-character" else ""),
+                             dict(text=t[2], got=srepr(s.value))))
     return out
 
 
@@ -284,6 +301,17 @@ def check_scope(case, ctx):
                                                                           before=srepr(before, 600), after=srepr(after, 600)))]
 
 
+def _injected(kind, msg):
+    """The exception a failing converter raises: with a message, without one (str(e) == ''), a bare assert, a KeyError."""
+    if kind == "empty":
+        return ValueError()
+    if kind == "assert":
+        return AssertionError()
+    if kind == "keyerror":
+        return KeyError(3)
+    return RuntimeError(msg)
+
+
 def check_failpoint(case, ctx):
     from pylatexenc.latex2text import LatexNodes2Text
     from pylatexenc.latexencode import UnicodeToLatexEncoder
@@ -294,13 +322,13 @@ def check_failpoint(case, ctx):
     class BadEnc(UnicodeToLatexEncoder):
         def unicode_to_latex(self, s, **kw):
             if mode == "always" or marker in s:
-                raise RuntimeError("injected encoder failure")
+                raise _injected(case.get("exc", "msg"), "injected encoder failure")
             return super().unicode_to_latex(s, **kw)
 
     class BadDec(LatexNodes2Text):
         def latex_to_text(self, s, **kw):
             if mode == "always" or marker in s:
-                raise RuntimeError("injected decoder failure")
+                raise _injected(case.get("exc", "msg"), "injected decoder failure")
             return super().latex_to_text(s, **kw)
 
     tx = list(texts)
